@@ -128,7 +128,7 @@ theorem keyIncr_specc (T : CTab) (raw : Raw) (h : Nat → Int) (o : Nat) :
   rintro w ⟨hi, hc⟩
   obtain ⟨k, hk, hraw, hrefs, hcl, _, _⟩ := hi.open_of_cnt hc
   show RIc T raw (hadd h o 1) { w with keys := setAt w.keys o fun x => { x with refs := x.refs + 1 } }
-  refine hi.updKey o (fun x => { x with refs := x.refs + 1 }) k hk (fun x => ⟨rfl, rfl, rfl⟩) ⟨rfl, fun _ e => e, hi.rawObj⟩ ?_ (fun _ => trivial) ?_ rfl rfl rfl
+  refine hi.updKey o (fun x => { x with refs := x.refs + 1 }) k hk (fun x => ⟨rfl, rfl, rfl, rfl⟩) ⟨rfl, fun _ _ e => e, hi.rawObj⟩ ?_ (fun _ => trivial) ?_ rfl rfl rfl
   · intro o' ho'; simp [hadd, ho']
   · refine ⟨fun e => absurd e hraw, fun _ => ?_⟩
     rw [cntOf_hadd]; simp only [if_true]
@@ -147,7 +147,7 @@ theorem keyRelease_specc (T : CTab) (raw : Raw) (h : Nat → Int) (o : Nat) :
     intro o' ho'; simp [hadd, ho']
   by_cases hr : k.refs - 1 > 0
   · simp only [hr, true_or, if_true]
-    refine hi.updKey o (fun x => { x with refs := x.refs - 1 }) k hk (fun x => ⟨rfl, rfl, rfl⟩) ⟨rfl, fun _ e => e, hi.rawObj⟩ hh (fun _ => trivial) ?_ rfl rfl rfl
+    refine hi.updKey o (fun x => { x with refs := x.refs - 1 }) k hk (fun x => ⟨rfl, rfl, rfl, rfl⟩) ⟨rfl, fun _ _ e => e, hi.rawObj⟩ hh (fun _ => trivial) ?_ rfl rfl rfl
     refine ⟨fun e => absurd e hraw, fun _ => ?_⟩
     rw [cntOf_hadd]; simp only [if_true]
     refine ⟨by omega, ?_⟩
@@ -156,7 +156,7 @@ theorem keyRelease_specc (T : CTab) (raw : Raw) (h : Nat → Int) (o : Nat) :
     · intro e; omega
   · simp only [hr, hcl, false_or, if_false]
     rw [hsec]
-    refine hi.closeKey o (fun x => { x with refs := x.refs - 1, closed := true }) k hk hcl (fun x => ⟨rfl, rfl, rfl⟩) ⟨rfl, fun _ e => e, hi.rawObj, hraw⟩ hh ?_ rfl rfl rfl
+    refine hi.closeKey o (fun x => { x with refs := x.refs - 1, closed := true }) k hk hcl (fun x => ⟨rfl, rfl, rfl, rfl⟩) ⟨rfl, fun _ _ e => e, hi.rawObj, hraw⟩ hh ?_ rfl rfl rfl
     rw [cntOf_hadd]; simp only [if_true]
     constructor <;> omega
 
@@ -170,8 +170,8 @@ theorem keyCloseRaw_spec (T : CTab) (h : Nat → Int) (o : Nat) :
   rw [keyCloseRaw_run w o _ hk]
   simp only [hacc.1, if_false]
   rw [hi.sec o _ hk]
-  refine hi.closeKey o (fun x => { x with closed := true }) _ hk hacc.1 (fun x => ⟨rfl, rfl, rfl⟩)
-    ⟨rfl, fun _ e => (by cases e), fun _ e => (by cases e), (by intro e; cases e)⟩
+  refine hi.closeKey o (fun x => { x with closed := true }) _ hk hacc.1 (fun x => ⟨rfl, rfl, rfl, rfl⟩)
+    ⟨rfl, fun _ _ e => (by cases e), fun _ e => (by cases e), (by intro e; cases e)⟩
     ?_ ⟨(by simp only; rw [hacc.2.1, hacc.2.2]), hacc.2.2⟩ rfl rfl rfl
   intro o' ho'
   refine ⟨rfl, ?_⟩
@@ -194,7 +194,7 @@ theorem keyWrap_spec (T : CTab) (H : List Nat) (o : Nat) :
   refine ⟨?_, hent⟩
   unfold RI
   rw [hcount_cons]
-  refine RIc.updKey hi o (fun x => { x with refs := 1 }) _ hk (fun x => ⟨rfl, rfl, rfl⟩) ⟨rfl, fun _ e => (by cases e), fun _ e => (by cases e)⟩ ?_ (fun _ => trivial) ?_ rfl rfl rfl
+  refine RIc.updKey hi o (fun x => { x with refs := 1 }) _ hk (fun x => ⟨rfl, rfl, rfl, rfl⟩) ⟨rfl, fun _ _ e => (by cases e), fun _ e => (by cases e)⟩ ?_ (fun _ => trivial) ?_ rfl rfl rfl
   · intro o' ho'
     refine ⟨by simp [hadd, ho'], ?_⟩
     constructor
@@ -276,7 +276,7 @@ theorem keyIncr_spec (T : CTab) (raw : Raw) (H : List Nat) (o : Nat) :
   omega
 
 theorem secretRandom_spec (T : CTab) (h : Nat → Int) :
-    Spec (RIc T .none h) secretRandom (fun p => RIc T (.sec p.1) h) (RIc T .none h) := by
+    Spec (RIc T .none h) secretRandom (fun p => RIc T (.sec p.1 p.2) h) (RIc T .none h) := by
   unfold secretRandom
   refine Spec.bind (takeFault_ri T .none h).toSpec (fun _ h => h) ?_
   intro f
@@ -287,7 +287,7 @@ theorem secretRandom_spec (T : CTab) (h : Nat → Int) :
     exact hi.allocSecret { mat := w.mats } ⟨rfl, rfl⟩ rfl rfl rfl
 
 theorem secretNew_spec (T : CTab) (h : Nat → Int) (b m : Nat) :
-    Spec (RIc T .none h) (secretNew b m) (fun s => RIc T (.sec s) h) (RIc T .none h) := by
+    Spec (RIc T .none h) (secretNew b m) (fun s => RIc T (.sec s m) h) (RIc T .none h) := by
   unfold secretNew
   refine Spec.bind (takeFault_ri T .none h).toSpec (fun _ h => h) ?_
   intro f
@@ -299,8 +299,8 @@ theorem secretNew_spec (T : CTab) (h : Nat → Int) (b m : Nat) :
     exact hi.allocSecret { mat := m } ⟨rfl, rfl⟩ rfl rfl rfl
 
 theorem newKeyObj_spec (T : CTab) (h : Nat → Int) (c : Int) (r : Bool) (m s : Nat) :
-    Spec (RIc T (.sec s) h) (newKeyObj c r m s) (fun o => RIc T (.obj o) h) (fun _ => False) := by
+    Spec (RIc T (.sec s m) h) (newKeyObj c r m s) (fun o => RIc T (.obj o) h) (fun _ => False) := by
   intro w hi
-  exact hi.allocKey { created := c, revoked := r, mat := m, sec := s } ⟨rfl, rfl, rfl⟩ rfl rfl rfl
+  exact hi.allocKey { created := c, revoked := r, mat := m, sec := s } ⟨rfl, rfl, rfl, rfl⟩ rfl rfl rfl
 
 end AsherahVerif.Env
